@@ -201,6 +201,13 @@ embedded_pairing_core_arch_x86_64_bigint_768_square:
     adc %rbx, %rbx
     adc %r9, %r9
 
+    # The doubling can carry out into the top word of the result (it does for
+    # operands close to 2^384). No register is free, so park the carry in the
+    # result itself until the top word is computed at the end.
+    movq $0, %rax
+    adc $0, %rax
+    movq %rax, 88(%rdi)
+
     # Add diagonal (r8 stores the carry)
     movq (%rsi), %rax
     mulq %rax
@@ -233,6 +240,7 @@ embedded_pairing_core_arch_x86_64_bigint_768_square:
     add %rax, %r9
     movq %r9, 80(%rdi)
     adc $0, %rdx
+    add 88(%rdi), %rdx
     movq %rdx, 88(%rdi)
 
     pop %r15
